@@ -526,7 +526,7 @@ func newEnv(sc *Scenario) *env {
 	e.ctrl = statefulset.NewStatefulSetController(
 		capPodInformer{PodInformer: podsInf, inf: e.podCap}, capSetInformer{StatefulSetInformer: setsInf, inf: e.setCap},
 		e.kinf.Core().V1().PersistentVolumeClaims(),
-		e.kinf.Apps().V1().ControllerRevisions(), e.kube, e.as)
+		e.kinf.Apps().V1().ControllerRevisions(), valKube{e.kube}, e.as)
 	if sc.FastQueue {
 		e.ctrl.VerifSetQueue(workqueue.NewNamedRateLimitingQueue(
 			workqueue.NewItemExponentialFailureRateLimiter(20*time.Microsecond, time.Millisecond), "statefulset-fast"))
